@@ -200,8 +200,10 @@ def rand_user_table(rng, base):
         k = rng.random()
         if k < 0.4:
             base_k = rng.choice(keys)
-            i = rng.randint(0, len(base_k) - 1)
+            i = rng.choice([j for j, ch in enumerate(base_k) if ch.isalpha()])
             nk = base_k[:i] + base_k[i] * rng.randint(1, 3) + base_k[i:]          # repeated letters
+            # (only letters are repeated: a key must be something the abbreviation grammar reads as ONE name;
+            #  `@@kf` is two tokens, the statement does not speak about such keys)
         elif k < 0.6:
             nk = rng.choice(['annii', 'acddd', 'abcd', 'aab', 'aabb', 'zzz', 'pp', 'mmm', 'posi', 'bdd'])
         elif k < 0.8:
